@@ -123,7 +123,7 @@ def generate(rng, quick):
         k += 1
         cases.append(make_case('fail-' + name, src, compress=needc, labels='lab.txt', hexoff=rng.choice(HEX_OK[:3]),
                                cwd_rel=cwds[k % 3]))
-        if not quick or k % 3 == 0:
+        if True:
             cases.append(make_case('fail-' + name + '-c', src, compress=True, labels='sub/lab.txt', output=None,
                                    hexoff=None, cwd_rel=cwds[(k + 1) % 3], verbose=(k % 2 == 0)))
     # successes x hex offsets
@@ -155,8 +155,8 @@ def generate(rng, quick):
                            cwd_rel='.'))
     cases.append(make_case('blob-other-cwd', OK_PROGRAMS['blob'], labels='lab.txt', hexoff='0', cwd_rel='other'))
     cases.append(make_case('include-no-dir', OK_PROGRAMS['include'], labels='lab.txt', incs=()))
-    if not quick:
-        for i in range(120):
+    if True:
+        for i in range(30 if quick else 120):
             fail = rng.random() < 0.5
             if fail:
                 pn = rng.choice(list(FAIL_PROGRAMS))
